@@ -234,3 +234,44 @@ def nest(R, one):
             return [one() for _ in range(sh[0])]
         return [build(sh[1:]) for _ in range(sh[0])]
     return build(shape)
+
+
+def late_header_stream(chk, model, bres, R, n, stream='file-header-late'):
+    """FILE-HEADER values assigned to the header object after it was made (the constructor's checks do not apply): the
+    fixed-width ASCII fields of 10 and 65 characters hold them exactly, and a value that does not fit is refused when the
+    record is made - never written behind a length prefix that announces fewer characters"""
+    from dliswriter.logical_record import eflr_types
+    from harness.impl import call
+    reqs, cases = [], []
+    for i in range(n):
+        hid = R.choice(['', 'H', 'late id', 'I' * 64, 'J' * 65, 'K' * 66, 'L' * 67, 'M' * 130, rstr(R, R.randrange(0, 70))])
+        seqno = R.choice([1, 7, 10 ** 9, 10 ** 10 - 1, 10 ** 10, 10 ** 10 + 3, 10 ** 11, R.randrange(1, 10 ** 10)])
+        fs = eflr_types.FileHeaderSet()
+        it = eflr_types.FileHeaderItem('PLACEHOLDER', parent=fs, sequence_number=1, identifier='0')
+        it.origin_reference = R.choice([1, 2, 128])
+        which = R.choice(['id', 'seq', 'both'])
+        if which in ('id', 'both'):
+            it.header_id = hid
+        if which in ('seq', 'both'):
+            it.sequence_number = seqno
+        st, body = call(fs._make_body_bytes)
+        fits = len(it.header_id) <= 65 and len(str(it.sequence_number)) <= 10
+        case = {'header_id_assigned_after_construction': it.header_id, 'sequence_number_assigned_after_construction': it.sequence_number}
+        chk.case(stream, nontrivial_key=(stream, it.header_id, it.sequence_number), sample=dict(case, outcome=st))
+        chk.count(f'{stream}:{"fits" if fits else "too-long"}:{st}')
+        if not fits:
+            if st == 'ok':
+                chk.fail(f'{stream}:over-long-value-written', case,
+                         f'a value longer than its fixed-width field was written: {body.hex()[:120]}')
+            continue
+        if st != 'ok':
+            chk.fail(f'{stream}:valid-value-refused', case, f'raises {body}')
+            continue
+        reqs.append(f'peflr {hexs(body)}')
+        cases.append((case, it.header_id, it.sequence_number))
+    if bres.ok:
+        for (case, hid, seqno), rep in zip(cases, model.ask(reqs)):
+            want_seq = hexs(str(seqno).rjust(10).encode())
+            want_id = hexs(hid.ljust(65).encode())
+            if not rep.startswith('ok ') or f'1:20:-:0a{want_seq}' not in rep or f'1:20:-:41{want_id}' not in rep:
+                chk.fail(f'{stream}:content', case, f'the FILE-HEADER record decodes as {rep[:200]}')
